@@ -865,6 +865,10 @@ func (e *Env) call(x *ECall) TV {
 		NeedList(Type{K: KNB})
 		Declare("uf:native_std_StringSplit", "(declare-fun native_std_StringSplit (String String) L_NB)")
 		return TV{T: sx.App("native_std_StringSplit", toBytes(e.Tr(x.Args[0])), toBytes(e.Tr(x.Args[1]))), Ty: Type{K: KList, Name: "L_NB"}}
+	case x.Fn == "memsearch":
+		// std.MemorySearch(mem, val): the same uninterpreted function the executor uses
+		Declare("uf:native_std_MemorySearch", "(declare-fun native_std_MemorySearch (String String) Int)")
+		return TV{T: sx.App("native_std_MemorySearch", toBytes(e.Tr(x.Args[0])), toBytes(e.Tr(x.Args[1]))), Ty: I}
 	case x.Fn == "splitne":
 		// std.StringSplitNonEmpty(s, sep): the same uninterpreted function the executor uses
 		NeedList(Type{K: KNB})
